@@ -729,7 +729,8 @@ var $assertType = (value, type, returnTuple) => {
     } else if (!isInterface) {
         ok = value.constructor === type;
     } else {
-        var valueTypeString = value.constructor.string;
+        /* keyed by the unique type id: distinct types may print the same string */
+        var valueTypeString = value.constructor.id;
         ok = type.implementedBy[valueTypeString];
         if (ok === undefined) {
             ok = true;
